@@ -295,6 +295,16 @@ class PbMessageWrapper(HubMessage):
                 except AttributeError:
                     pass
 
+        # A newly created message must identify its own type even when none
+        # of its fields is given a value (e.g. optional fields all unset, empty
+        # repeated field): mark the sub-messages holding our fields as present.
+        if message is None:
+            for pb_field in self.__pb_fields.values():
+                node = self.message
+                for node_name in pb_field.path.split('.')[:-1]:
+                    node = getattr(node, node_name)
+                node.SetInParent()
+
         # Override message values with keyword arguments
         for message_field in kwargs:
             if message_field in self.__pb_fields:
